@@ -5,9 +5,9 @@ function by function.
 * `Val`: a Python float as `fin q | posInf | negInf | nan`, with the IEEE-754 comparison and
   arithmetic rules written out (finite arithmetic is exact: rounding and overflow of finite values are
   not modelled, the correspondence stays away from 1e150 and compares within K·eps·M).
-* `Mob.applyV`: a conversion formula on such a value, in the shape `(a + b*x) / (c + d*x)` of
-  `posc.MakeCustomaryToBase` / `MakeBaseToCustomary` (`0 * inf = nan`, so an infinity that goes through
-  a formula becomes NaN; `AddUnitBase`'s `identity` returns its argument untouched).
+* `Mob.applyV`: a conversion formula of `posc.MakeCustomaryToBase` / `MakeBaseToCustomary` on such a
+  value: `(a + b*x) / c` when `d == 0` (an infinity stays an infinity, with the sign of the slope), the
+  general `(a + b*x) / (c + d*x)` otherwise; `AddUnitBase`'s `identity` returns its argument untouched.
 * `CatInfo`/`Reg`: `CategoryInfo` and the category registry; `addCategory` = `UnitDatabase.AddCategory`
   (all arguments except the caption's title-casing).
 * `mkQuant` = simple branch of `Quantity.__init__`; `checkValue` = `Quantity.CheckValue`;
@@ -106,9 +106,13 @@ def div : Val → Val → Except ErrKind Val
 
 end Val
 
-/-- a conversion formula `(p + q*x) / (r + s*x)` evaluated on a float -/
+/-- a conversion formula evaluated on a float, in the two shapes `posc.MakeCustomaryToBase` /
+`MakeBaseToCustomary` choose between: without a variable term in the denominator (`d == 0`) the value is
+`(p + q*x) / r` — an infinite `x` stays infinite, with the sign of the slope —, otherwise the general
+`(p + q*x) / (r + s*x)` -/
 def _root_.Barril.Mob.applyV (m : Mob) (v : Val) : Except ErrKind Val :=
-  Val.div (Val.add (.fin m.p) (Val.mul (.fin m.q) v)) (Val.add (.fin m.r) (Val.mul (.fin m.s) v))
+  if m.s = 0 then Val.div (Val.add (.fin m.p) (Val.mul (.fin m.q) v)) (.fin m.r)
+  else Val.div (Val.add (.fin m.p) (Val.mul (.fin m.q) v)) (Val.add (.fin m.r) (Val.mul (.fin m.s) v))
 
 /-- `info.tobase(value)`: `identity` (flagged `__has_conversion__ = False`) or the formula -/
 def toBaseV (r : UnitRow) (v : Val) : Except ErrKind Val :=
